@@ -184,6 +184,7 @@ Tree1 == [s1 |-> "prov"]
 
 One(c) == {c}
 CfgBasic == {Basic}
+CfgRelease == {Basic, Chain, Inits, Multi, Diamond2}
 CfgBuiltin == {Builtin}
 CfgAll == Plain \cup Defective
 CfgFaults == Faulty
